@@ -1,0 +1,17 @@
+//go:build verif
+
+package participle
+
+// Verification hooks, enabled with the build tag "verif". They change no behaviour: every hook is a
+// no-op unless a test harness installs a sink.
+const verifEnabled = true
+
+// VerifSink, when set, receives one event per parse-context operation (Branch, Accept, Stop, Defer,
+// ApplyFrom) with the cursors and list lengths involved.
+var VerifSink func(ev string, a, b, c, d int)
+
+func verifEvent(ev string, a, b, c, d int) {
+	if s := VerifSink; s != nil {
+		s(ev, a, b, c, d)
+	}
+}
